@@ -181,9 +181,11 @@ def check_c19(run):
     run_driver(run, binary, sp, tp)
     cold_evs = read_ndjson(tp)
     bad = [e for e in cold_evs if e.get("ev") == "cold_err"]
-    if bad or sum(1 for e in cold_evs if e.get("ev") == "cold_done") != len(cold):
-        raise Infra("cold sessions did not run cleanly: %s" % json.dumps(bad[:3]))
-    reports += parse_races(stderr_of(run, tp))
+    cold_reports = parse_races(stderr_of(run, tp))
+    if (bad and not cold_reports) or sum(1 for e in cold_evs if e.get("ev") == "cold_done") != len(cold):
+        # rule errors in these sessions are expected only as a consequence of a conflict the detector reports as well
+        raise Infra("cold sessions did not run cleanly and no conflict was reported: %s" % json.dumps(bad[:3]))
+    reports += cold_reports
     total += len(cold)
     run.cov["cold_tree_sessions"] = len(cold)
     seen = {}
